@@ -194,6 +194,7 @@ type plan struct {
 	focus     string
 	stmt      string              // name of the trust policy statement
 	level     string              // shape of signatureVerification (see levelShapes); "" = logBoth
+	ctor      string              // which public constructor builds the verifier (see newVerifier); "" = NewVerifierWithOptions
 	tsaType   string              // how the statement spells the type of its tsa entries ("" = "tsa")
 	signType  string              // how it spells the type of the ca / signingAuthority entry ("" = canonical)
 	content   map[string][]string // TSA roots ("A","B","C") held by the tsa stores "c06tsa" and "other" in this case
@@ -386,6 +387,11 @@ func genPlanRaw(r *rand.Rand) plan {
 		"other":  pick(r, []string{"B"}, []string{"B"}, []string{"B"}, []string{"A"}, []string{"C"}),
 	}
 	p.stmt = pick(r, "c06", "c06", "c06", "c06-second-statement")
+	// every public constructor: the caller's timestamping revocation validator must decide whichever is used;
+	// `New` cannot be given one - there notation-core-go's default validator decides (the TSA certificates of
+	// the stream carry no OCSP / CRL pointers: every certificate is non-revokable, no network is touched)
+	p.ctor = pick(r, "NewVerifierWithOptions", "NewVerifierWithOptions", "NewVerifierWithOptions", "NewVerifierWithOptions",
+		"NewVerifierWithOptions", "NewVerifierWithOptions", "NewWithOptions", "NewWithOptions", "NewWithOptions+RevocationClient", "New")
 	// the spelling of the store TYPES: another letter case or white space around the type.  Today's policy
 	// validation refuses such a statement (then nothing can be verified); an implementation that accepts one
 	// must serve AND count the entry as what it denotes.
@@ -684,6 +690,13 @@ func concretise(w *world, p plan, id int, ref time.Time) *prepared {
 	if _, ok := w.interTSA[p.token]; ok {
 		in.TsaChainLen = 3
 	}
+	if p.ctor == "New" {
+		// no caller-supplied validator: the default one finds no OCSP / CRL pointer in any TSA certificate
+		in.TsaRevocationError, in.TsaRevocation = false, nil
+		for k := 0; k < in.TsaChainLen; k++ {
+			in.TsaRevocation = append(in.TsaRevocation, "nonRevokable")
+		}
+	}
 	for _, st := range p.stores {
 		in.TsaStoresNonEmpty = in.TsaStoresNonEmpty || len(p.contentOf(st)) > 0
 	}
@@ -874,7 +887,16 @@ func timestampEnforced(level string) bool {
 	return level == "strict+revocationSkip" || level == "permissive+timestampEnforce+revocationSkip"
 }
 
-func (s *session) newVerifier(stmt string, trustStores []string, option string, level string) ociVerifier {
+// clientRecorder is the DEPRECATED revocation.Revocation interface for the signing chain: it answers OK and records
+// what it was asked into the tenant's code-signing recorder.
+type clientRecorder struct{ rec *recorder }
+
+func (c clientRecorder) Validate(certChain []*x509.Certificate, signingTime time.Time) ([]*revresult.CertRevocationResult, error) {
+	c.rec.calls = append(c.rec.calls, revocation.ValidateContextOptions{CertChain: certChain, AuthenticSigningTime: signingTime})
+	return common.UniformResults(revresult.ResultOK)(certChain)
+}
+
+func (s *session) newVerifier(stmt string, trustStores []string, option string, level string, ctor string) ociVerifier {
 	shape := levelShapes[level]
 	sv := trustpolicy.SignatureVerification{VerificationLevel: shape.VerificationLevel, Override: map[trustpolicy.ValidationType]trustpolicy.ValidationAction{}}
 	for k, v := range shape.Override {
@@ -887,8 +909,27 @@ func (s *session) newVerifier(stmt string, trustStores []string, option string, 
 		Name: stmt, RegistryScopes: []string{"*"}, SignatureVerification: sv,
 		TrustStores: append([]string{}, trustStores...), TrustedIdentities: []string{"*"},
 	}}}
-	v, err := verifier.NewVerifierWithOptions(s.store, verifier.VerifierOptions{OCITrustPolicy: doc,
-		RevocationTimestampingValidator: s.tsRec, RevocationCodeSigningValidator: s.csRec})
+	var v ociVerifier
+	var err error
+	switch ctor {
+	case "", "NewVerifierWithOptions":
+		var x interface {
+			ociVerifier
+		}
+		x, err = verifier.NewVerifierWithOptions(s.store, verifier.VerifierOptions{OCITrustPolicy: doc,
+			RevocationTimestampingValidator: s.tsRec, RevocationCodeSigningValidator: s.csRec})
+		v = x
+	case "NewWithOptions": // deprecated, must hand on every option of the caller
+		v, err = verifier.NewWithOptions(doc, s.store, nil, verifier.VerifierOptions{
+			RevocationTimestampingValidator: s.tsRec, RevocationCodeSigningValidator: s.csRec})
+	case "NewWithOptions+RevocationClient": // the deprecated client for the signing chain next to the timestamping validator
+		v, err = verifier.NewWithOptions(doc, s.store, nil, verifier.VerifierOptions{
+			RevocationTimestampingValidator: s.tsRec, RevocationClient: clientRecorder{s.csRec}})
+	case "New": // no options at all: default validators
+		v, err = verifier.New(doc, s.store, nil)
+	default:
+		panic("c06: constructor " + ctor)
+	}
 	if err != nil {
 		// policy validation refused the statement: no verification possible (an observation, not a harness error)
 		return nil
@@ -905,10 +946,10 @@ func stmtOf(p *plan) string {
 
 // verifierFor returns the long-lived verifier of the policy shape.
 func (s *session) verifierFor(q *prepared) ociVerifier {
-	key := fmt.Sprint(stmtOf(&q.p), q.trustStores, q.p.option, levelOf(&q.p))
+	key := fmt.Sprint(stmtOf(&q.p), q.trustStores, q.p.option, levelOf(&q.p), q.p.ctor)
 	v, ok := s.verifiers[key]
 	if !ok {
-		v = s.newVerifier(stmtOf(&q.p), q.trustStores, q.p.option, levelOf(&q.p))
+		v = s.newVerifier(stmtOf(&q.p), q.trustStores, q.p.option, levelOf(&q.p), q.p.ctor)
 		if v == nil {
 			return nil
 		}
@@ -956,7 +997,7 @@ func (s *session) execute(q *prepared, fresh bool) (Obs, time.Time, time.Time) {
 	if fresh {
 		host = newSessionWith(s.w, s.realTS)
 		host.script(q)
-		v = host.newVerifier(stmtOf(&q.p), q.trustStores, q.p.option, levelOf(&q.p))
+		v = host.newVerifier(stmtOf(&q.p), q.trustStores, q.p.option, levelOf(&q.p), q.p.ctor)
 	} else {
 		s.script(q)
 		v = s.verifierFor(q)
@@ -1247,6 +1288,7 @@ func Run(c *common.Ctx) error {
 		c.Count("scheme=" + p.scheme)
 		c.Count("option=" + p.option)
 		c.Count("level=" + levelOf(&p))
+		c.Count("constructor=" + p.ctor)
 		c.Count("storeTypeSpelling=tsa:" + in.TsaTypeSpelling + " signing:" + in.SigningTypeSpelling)
 		if obs.Refused {
 			c.Count("policy=refused")
@@ -1289,7 +1331,7 @@ func Run(c *common.Ctx) error {
 			}
 		}
 	}
-	c.Note("random product of: scheme x chain length 1..4 with independent per-certificate windows (valid / one expired / one not yet valid / mixed / barely valid at 60 s / expired long ago) x signing time on, one ns / one s off and far from the window boundaries x expiry absent / past / future x tsa store listings (none, listed, other, both, empty, failing, duplicate; any position) x verifyTimestamp unset/always/afterCertExpiry x countersignature (absent, garbage, good - also from TSAs with an intermediate CA without EKU / with the time stamping EKU -, 19 single faults incl. an intermediate CA restricted to code signing or to TLS, double faults) x spelling of the store TYPES in the statement (canonical; another letter case or white space around the type for the tsa entries / the ca or signingAuthority entry - refused by today's policy validation: 'no verification possible') x level shape (expiry/authenticTimestamp logged; the same with the override revocation: skip; strict, permissive with authenticTimestamp enforced, audit - each with revocation: skip) x time range (inside, on the boundaries, 1 us / 1 ms / 1 s outside, before, after, huge accuracy, baseline-policy default accuracy); hand-assembled ES256 JWS envelopes, local RFC 3161 TSA, real verifier.Verify with expiry/authenticTimestamp set to log. `now` is the harness's clock reading; everything compared with the clock is at least 60 s away from it.")
+	c.Note("random product of: scheme x chain length 1..4 with independent per-certificate windows (valid / one expired / one not yet valid / mixed / barely valid at 60 s / expired long ago) x signing time on, one ns / one s off and far from the window boundaries x expiry absent / past / future x tsa store listings (none, listed, other, both, empty, failing, duplicate; any position) x verifyTimestamp unset/always/afterCertExpiry x countersignature (absent, garbage, good - also from TSAs with an intermediate CA without EKU / with the time stamping EKU -, 19 single faults incl. an intermediate CA restricted to code signing or to TLS, double faults) x spelling of the store TYPES in the statement (canonical; another letter case or white space around the type for the tsa entries / the ca or signingAuthority entry - refused by today's policy validation: 'no verification possible') x public constructor (NewVerifierWithOptions, the deprecated NewWithOptions with the caller's validators / with the deprecated RevocationClient, New with the default validators) x level shape (expiry/authenticTimestamp logged; the same with the override revocation: skip; strict, permissive with authenticTimestamp enforced, audit - each with revocation: skip) x time range (inside, on the boundaries, 1 us / 1 ms / 1 s outside, before, after, huge accuracy, baseline-policy default accuracy); hand-assembled ES256 JWS envelopes, local RFC 3161 TSA, real verifier.Verify with expiry/authenticTimestamp set to log. `now` is the harness's clock reading; everything compared with the clock is at least 60 s away from it.")
 	c.Note("state across calls: two tenants (separate trust store, validator and verifier objects, same statement and store names) run interleaved; per tenant one long-lived verifier per policy shape (statement name x store list x option: %d verifier objects, the busiest used %d times); the contents of the stores change from case to case under unchanged names - the signing root under ca:c06 / signingAuthority:c06 is new in every case, tsa:c06tsa and tsa:other hold varying subsets of three TSA roots - so the same statement name and store list see a TSA root trusted-then-distrusted and distrusted-then-trusted many times (history=... counters), on the same verifier, on the other tenant's, and on the brand-new verifier over brand-new store objects that every tenth case uses; the validator answers with 0..3 results for the 2-certificate TSA chain.", shapes, maxUses)
 	c.Note("long-lived-verifier cases (%d envelopes): expiry / NotAfter / NotBefore = T+4 s, verified on a long-lived verifier at T (phase 1) and again, after the whole case stream, at >= T+7 s on the SAME verifier and on a new one (phase 2); for these cases only, the clock margin is relaxed from 60 s to >= 1.5 s (phase 1) / >= 3 s (phase 2); they test that verdicts follow the real clock over a verifier's lifetime, not boundaries; a case whose margin was lost to a stall is skipped and counted.", len(ll))
 	return nil
